@@ -107,16 +107,11 @@ def run(chk, prog):
     _ci = prog.cls("IncrementalInterpreter", "interpreters/incremental.py")
     _fn = _ci.methods["eval_jaxpr_incremental"]
     _loops = [n for n in _ast.walk(_fn) if isinstance(n, _ast.For)]
-    _okctx = False
-    for _lp in _loops:
-        _withs = [n for n in _ast.walk(_lp) if isinstance(n, _ast.With) and any(_ast.unparse(it.context_expr).endswith(".ctx.manager") for it in n.items)]
-        _binds_outside = [n for n in _ast.walk(_lp) if isinstance(n, _ast.Call) and isinstance(n.func, _ast.Attribute) and n.func.attr in ("bind", "dispatch") or (isinstance(n, _ast.Call) and _ast.unparse(n.func).endswith("default_propagation_rule"))]
-        _inside = {id(x) for w_ in _withs for x in _ast.walk(w_)}
-        if _binds_outside and all(id(b_) in _inside for b_ in _binds_outside):
-            _okctx = True
+    from ..interp import bind_context_ok
+    _okctx, _ctxtxt = bind_context_ok(prog, _ci, _fn)
     # no equation is skipped: an unhandled equation with unused results may still have EFFECTS (io_callback, writes into a mutable array) that later outputs see
     _skips = [f"{type(n).__name__.lower()} at line {n.lineno}" for _lp in _loops for n in _ast.walk(_lp) if isinstance(n, (_ast.Continue, _ast.Break))]
     chk.require(not _skips, "INTERP-SKELETON", _fn.name + "/no-skip", "equations skipped by the interpreter loop", derived=str(_skips) if _skips else "no continue / break in the loop", expected="every equation is dispatched or bound", where=chk.where(_ci.module, _fn))
-    chk.require(_okctx, "INTERP-SKELETON", "eval_jaxpr_incremental/bind-context", "configuration context of the re-bound equations", derived="bind / dispatch " + ("inside" if _okctx else "outside") + " `with eqn.ctx.manager`",
+    chk.require(_okctx, "INTERP-SKELETON", "eval_jaxpr_incremental/bind-context", "configuration context of the re-bound equations", derived=_ctxtxt,
                 expected="with eqn.ctx.manager: <dispatch or bind>", where=chk.where(_ci.module, _fn))
     chk.explanation = "loop skeleton of the incremental interpreter by dataflow, NoChange wrapping of constants/literals, the propagation rule, pairing of primal and tangent trees"
